@@ -21,9 +21,9 @@ var c03Gen *eng.Kind[GenCase]
 
 func init() {
 	c := eng.Register(&eng.Check{
-		ID:    "C03",
-		Title: "Evaluation is total",
-		Rule: "value alphabet V (every supported and odd Go kind, non-finite numbers, functions with good and bad signatures): every prefix operator x V, every binary operator x V x V, conditionals, member access with present/absent/unexported/builtin names on every v, every builtin x every argument list of length 0..arity+1 over a representative sub-alphabet (with and without spread), every v called as a function, every parsed token sequence up to k over an evaluation alphabet, and the well-formed pathological family up to 64 KiB; each is one Resolve call judged for: no panic, (value,nil) xor (nil,error), step budget; distinct = distinct result classes",
+		ID:          "C03",
+		Title:       "Evaluation is total",
+		Rule:        "value alphabet V (every supported and odd Go kind, non-finite numbers, functions with good and bad signatures): every prefix operator x V, every binary operator x V x V, conditionals, member access with present/absent/unexported/builtin names on every v, every builtin x every argument list of length 0..arity+1 over a representative sub-alphabet (with and without spread), every v called as a function, every parsed token sequence up to k over an evaluation alphabet, and the well-formed pathological family up to 64 KiB; each is one Resolve call judged for: no panic, (value,nil) xor (nil,error), step budget; distinct = distinct result classes",
 		TrustedBase: []string{"checks/zoo.go (value alphabet)", "cmd/vinstr step counter"},
 		Assumptions: []string{"pad/repeat lengths are at most 10^6 or absurd (1e30); lengths in between could exhaust memory and are outside the statement", "host functions that themselves panic are outside the statement"},
 		Run:         runC03,
